@@ -53,3 +53,5 @@ def step (st : St) (ts : List String) : St × String :=
 def suite : Suite := { σ := St, init := .none, step := step }
 
 end Driver.C16
+
+def Driver.C16.suites : List (String × Driver.Suite) := [("c16", Driver.C16.suite)]
